@@ -26,7 +26,15 @@ structure Tables where
   infixBinding : TokenType → Option (Nat × Nat × Bool)
   prefixBp : Nat
 
-abbrev PM := StateT (List Token) (Except PErr)
+/-- `m_tokens`/`m_current` (the remaining tokens) and `m_depth` -/
+structure PState where
+  toks : List Token
+  depth : Nat := 0
+
+abbrev PM := StateT PState (Except PErr)
+
+/-- `kMaxNestingDepth` -/
+def maxNestingDepth : Nat := 256
 
 def eofTok : Token := ⟨.Eof, [], ⟨0, 0⟩⟩
 
@@ -35,13 +43,13 @@ def tpos (t : Token) : P := ⟨t.pos.line, t.pos.col⟩
 
 /-- `peek()` -/
 def peek : PM Token := do
-  match (← get) with
+  match (← get).toks with
   | t :: _ => pure t
   | [] => pure eofTok
 
 /-- token after the current one (`m_tokens[m_current + 1]`), if any -/
 def peekNextTy : PM (Option TokenType) := do
-  match (← get) with
+  match (← get).toks with
   | _ :: t :: _ => pure (some t.type)
   | _ => pure none
 
@@ -52,7 +60,7 @@ def advance : PM Token := do
   let t ← peek
   if t.type == .Eof then pure t
   else
-    modify (fun ts => ts.drop 1)
+    modify (fun s => { s with toks := s.toks.drop 1 })
     pure t
 
 def check (ty : TokenType) : PM Bool := do
@@ -64,6 +72,16 @@ def checkNext (ty : TokenType) : PM Bool := do pure ((← peekNextTy) == some ty
 def reportError {α : Type} (msg : String) : PM α := do
   let t ← peek
   throw ⟨t.pos.line, t.pos.col, msg, false⟩
+
+/-- `DepthGuard`: one level deeper for the duration of `act`; deeper than `kMaxNestingDepth` is a parse error at
+the current token -/
+def withDepth {α : Type} (act : PM α) : PM α := do
+  let s ← get
+  if s.depth + 1 > maxNestingDepth then reportError "nesting too deep"
+  set { s with depth := s.depth + 1 }
+  let r ← act
+  modify (fun s' => { s' with depth := s'.depth - 1 })
+  pure r
 
 def errorAt {α : Type} (p : P) (msg : String) : PM α := throw ⟨p.line, p.col, msg, false⟩
 
@@ -145,7 +163,7 @@ def isTypeAheadToks (ts : List Token) : Bool :=
         else false
       | _ => false
 
-def isTypeAhead : PM Bool := do pure (isTypeAheadToks (← get))
+def isTypeAhead : PM Bool := do pure (isTypeAheadToks (← get).toks)
 
 def checkFunctionAnnotation : PM Bool := do
   if !(← check .At) then pure false
@@ -226,7 +244,7 @@ mutual
 def parseType (tb : Tables) (fuel : Nat) (allowEmptyArgs : Bool) : PM Ty :=
   match fuel with
   | 0 => outOfFuel
-  | fuel + 1 => do
+  | fuel + 1 => withDepth do
     let base : Ty ←
       if (← check .Void) then do
         let _ ← advance
@@ -305,12 +323,12 @@ def parseExpression (tb : Tables) (fuel : Nat) : PM Expr :=
 def parsePratt (tb : Tables) (fuel : Nat) (minBp : Nat) : PM Expr :=
   match fuel with
   | 0 => outOfFuel
-  | fuel + 1 => do
+  | fuel + 1 => withDepth do
     let left ← parsePrefix tb fuel
-    prattLoop tb fuel minBp left
+    prattLoop tb fuel minBp 0 left
 
 /-- the `while (true)` loop of `parsePrattExpression` -/
-def prattLoop (tb : Tables) (fuel : Nat) (minBp : Nat) (left : Expr) : PM Expr :=
+def prattLoop (tb : Tables) (fuel : Nat) (minBp : Nat) (chain : Nat) (left : Expr) : PM Expr :=
   match fuel with
   | 0 => outOfFuel
   | fuel + 1 => do
@@ -320,29 +338,32 @@ def prattLoop (tb : Tables) (fuel : Nat) (minBp : Nat) (left : Expr) : PM Expr :
     | some (lbp, rbp, isPostfix) =>
       if lbp < minBp then pure left
       else
+        -- every operator applied in this loop puts the tree built so far one level deeper
+        let chain := chain + 1
+        if (← get).depth + chain > maxNestingDepth then reportError "nesting too deep"
         let _ ← advance
         if isPostfix then
           if tok.type == .LParen then
             let args ← if (← check .RParen) then pure [] else parseExprList tb fuel []
             let _ ← expect .RParen "Expected ')' after arguments"
-            prattLoop tb fuel minBp (.call left args (exprPos left))
+            prattLoop tb fuel minBp chain (.call left args (exprPos left))
           else if tok.type == .LBracket then
             let idx ← parseExpression tb fuel
             if negativeConstIndex idx then errorAt (tpos tok) "array index must be non-negative"
             let _ ← expect .RBracket "Expected ']' after index expression"
-            prattLoop tb fuel minBp (.index left idx (tpos tok))
+            prattLoop tb fuel minBp chain (.index left idx (tpos tok))
           else if tok.type == .Dot then
             let m ← expect .Identifier "Expected member name after '.'"
-            prattLoop tb fuel minBp (.member left (tstr m) (tpos tok))
+            prattLoop tb fuel minBp chain (.member left (tstr m) (tpos tok))
           else if tok.type == .PlusPlus || tok.type == .MinusMinus then
-            prattLoop tb fuel minBp (.postfix (tstr tok) left (tpos tok))
+            prattLoop tb fuel minBp chain (.postfix (tstr tok) left (tpos tok))
           else
             -- a postfix-kind entry the switch does not handle falls through to the infix code
             let right ← parsePratt tb fuel rbp
-            prattLoop tb fuel minBp (.bin (tstr tok) left right (tpos tok))
+            prattLoop tb fuel minBp chain (.bin (tstr tok) left right (tpos tok))
         else
           let right ← parsePratt tb fuel rbp
-          prattLoop tb fuel minBp (.bin (tstr tok) left right (tpos tok))
+          prattLoop tb fuel minBp chain (.bin (tstr tok) left right (tpos tok))
 
 /-- `do { args.push_back(parseExpression()); } while (match(Comma));` -/
 def parseExprList (tb : Tables) (fuel : Nat) (acc : List Expr) : PM (List Expr) :=
@@ -461,7 +482,7 @@ mutual
 def parseStatement (tb : Tables) (fuel : Nat) : PM (Stmt × List Stmt) :=
   match fuel with
   | 0 => outOfFuel
-  | fuel + 1 => do
+  | fuel + 1 => withDepth do
     if (← check .LBrace) then
       pure (← parseBlock tb fuel, [])
     else
@@ -832,7 +853,7 @@ def parseProgramLoop (tb : Tables) (fuel : Nat) (seenPackage seenTop : Bool) (pr
 /-- `Parser(tokens).parse()`; the fuel is a generous multiple of the token count -/
 def parseProgram (tb : Tables) (tokens : List Token) : Except PErr Program :=
   let fuel := 16 * tokens.length + 100
-  match (parseProgramLoop tb fuel false false {}).run tokens with
+  match (parseProgramLoop tb fuel false false {}).run { toks := tokens } with
   | .ok (p, _) => .ok p
   | .error e => .error e
 
